@@ -818,6 +818,80 @@ theorem byFactorF_cap_unadjusted (c c' : Circuit) (efs : List Rat) (maxD margin 
       have e2 : k * E * (1 - u) = k * (E * (1 - u)) := by ring
       have e3 : k * (maxD * (R * (1 + u))) = k * (1 + u) * maxD * R := by ring
       linarith
+/-- **The by-factor cap with rounding, ratio-adjusted branch, up to the computed ratio** (partial).  For `float`
+factors `1 ≤ e ≤ 2^53` (the property's quantifier: factor vectors ≥ 1), non-negative sizes of any width, in the
+branch `expandedDensity > maxDensity`: either nothing changes or
+
+  `area after ≤ (1+2^-24)³·(1+2^-53)² · (A + ρ·(S − A))`
+
+with `A` the movable area before, `S = Σ eᵢ·areaᵢ` (exact) and `ρ = ExpandF.ratioOf …` the `double` ratio the code
+computes (`0 ≤ ρ ≤ 1`): `e - 1.0` is exact, the product by `ρ`, the sum, the narrowing to `float`, `(float)w`
+and the `float` product round once each.  MISSING for `byFactorF_utilisation_full_statement`: that the computed
+`ρ` satisfies `ρ·(S − A) ≤ maxDensity·rowArea − A` up to rounding (two-sided bound of the accumulated
+`expandedArea`, of `density` and of the two differences); in exact arithmetic this is `byFactor_under_cap`. -/
+theorem byFactorF_cap_adjusted_partial (c c' : Circuit) (efs : List Rat) (maxD margin ret : Rat)
+    (h : ExpandF.expandCellsByFactor c efs maxD margin = some (c', ret)) (hsz : NonnegSizes c.cells)
+    (hfl : ∀ e ∈ efs, F64.f64 e = e ∧ 1 ≤ e ∧ e ≤ 2 ^ 53)
+    (hadj : ExpandF.expandedDensity c efs margin > maxD) :
+    c' = c ∨
+    (movableArea c'.cells : Rat) ≤
+      (1 + (2 : Rat) ^ (-24 : Int)) ^ 2 * ((1 + (2 : Rat) ^ (-53 : Int)) ^ 2 * (1 + (2 : Rat) ^ (-24 : Int))) *
+        ((movableArea c.cells : Rat) +
+          ExpandF.ratioOf maxD (ExpandF.density c margin) (ExpandF.expandedDensity c efs margin) *
+            (expandedArea c.cells efs - (movableArea c.cells : Rat))) := by
+  unfold ExpandF.expandCellsByFactor at h
+  split at h
+  · simp at h
+  · rename_i hrej
+    simp only [ExpandF.factorsRejected, Bool.or_eq_true, decide_eq_true_eq, List.any_eq_true, not_or,
+      not_exists, not_and, ne_eq, not_not, not_lt] at hrej
+    obtain ⟨hlen, _⟩ := hrej
+    simp only [Option.some.injEq] at h
+    unfold ExpandF.byFactorWith at h
+    split at h
+    · obtain ⟨rfl, _⟩ := Prod.mk.inj h; exact Or.inl rfl
+    · rename_i hn
+      obtain ⟨rfl, _⟩ := Prod.mk.inj h
+      right
+      have hd : ExpandF.density c margin < maxD := by
+        unfold ExpandF.noopOf at hn
+        exact not_le.mp (fun hh => hn (Or.inr (Or.inr hh)))
+      obtain ⟨r0, _⟩ := ExpandF.ratioOf_bounds maxD _ _ hd hadj
+      have heff : ExpandF.effectiveOf efs maxD
+          (ExpandF.densityOf (movableArea c.cells) (ExpandF.rowPlacementArea c margin))
+          (ExpandF.expandedDensityOf (ExpandF.expandedArea 0 c.cells efs)
+            (ExpandF.rowPlacementArea c margin)) =
+          efs.map (ExpandF.adjust (ExpandF.ratioOf maxD (ExpandF.density c margin)
+            (ExpandF.expandedDensity c efs margin))) := by
+        unfold ExpandF.effectiveOf
+        have hadj' : ExpandF.expandedDensityOf (ExpandF.expandedArea 0 c.cells efs)
+            (ExpandF.rowPlacementArea c margin) > maxD := hadj
+        rw [if_pos hadj']
+        rfl
+      simp only [heff]
+      have hhalf : ∀ e' ∈ efs.map (ExpandF.adjust (ExpandF.ratioOf maxD (ExpandF.density c margin)
+          (ExpandF.expandedDensity c efs margin))), (1 : Rat) / 2 ≤ e' := by
+        intro e' he'
+        obtain ⟨e, hem, rfl⟩ := List.mem_map.mp he'
+        have := ExpandF.adjust_ge_one _ e r0 (hfl e hem).2.1
+        linarith
+      have h1 := ExpandF.applyFactors_area_le_any c.cells _ hsz hhalf (by simp only [List.length_map]; omega)
+      have h2 := ExpandF.expandedArea_adjust_le _ r0 c.cells efs hsz hfl (by omega)
+      have hk : (0 : Rat) ≤ (1 + (2 : Rat) ^ (-24 : Int)) ^ 2 := sq_nonneg _
+      have h3 := mul_le_mul_of_nonneg_left h2 hk
+      rw [← mul_assoc] at h3
+      exact le_trans h1 h3
+
+-- non-vacuity of `byFactorF_cap_adjusted_partial`: the witness with maxDensity 85/128 is in the adjusted branch
+example : (∀ e ∈ [(19 / 16 : Rat)], F64.f64 e = e ∧ 1 ≤ e ∧ e ≤ 2 ^ 53) ∧
+    ExpandF.expandedDensity witness [19 / 16] 0 > 85 / 128 ∧
+    ¬ ExpandF.noopOf (movableArea witness.cells) (ExpandF.rowPlacementArea witness 0) (85 / 128) := by
+  refine ⟨?_, by decide +kernel, by decide +kernel⟩
+  intro e he
+  simp at he
+  subst he
+  decide +kernel
+
 -- non-vacuity of `byFactorF_cap_unadjusted`: the witness with maxDensity 1 is expanded (10 -> 11) without adjustment
 example : ExpandF.isI64 (ExpandF.rowPlacementArea witness 0) = true ∧
     ¬ ExpandF.expandedDensity witness [19 / 16] 0 > 1 ∧
